@@ -95,7 +95,7 @@ func (n *sx) mentions(vars map[string]bool, found map[string]bool) {
 }
 
 var nonTriggerHeads = map[string]bool{"+": true, "-": true, "*": true, "div": true, "mod": true, "<": true, "<=": true, ">": true, ">=": true, "=": true,
-	"and": true, "or": true, "not": true, "=>": true, "ite": true, "forall": true, "exists": true, "let": true, "!": true, "distinct": true, "store": true}
+	"arrnorm": true, "bnormdef": true, "and": true, "or": true, "not": true, "=>": true, "ite": true, "forall": true, "exists": true, "let": true, "!": true, "distinct": true, "store": true}
 
 // triggerCandidates returns applications usable as E-matching patterns: uninterpreted/select applications that mention
 // every bound variable and contain no interpreted boolean structure.
